@@ -6,6 +6,7 @@ import (
 	"flag"
 	"fmt"
 	"go/token"
+	"golang.org/x/tools/go/ssa"
 	"os"
 	"path/filepath"
 	"runtime"
@@ -97,7 +98,33 @@ func main() {
 	dumpF := flag.Bool("dump-funcs", false, "print the function keys of the library packages (to regenerate checker/known_funcs.txt) and exit")
 	noNorm := flag.Bool("no-normalize", false, "do not substitute unknown helper functions back into their callers before analysing")
 	selftestJSON := flag.String("selftest", "", "JSON summary of the rule self-test to embed in the evidence (thorough tier)")
+	dumpT := flag.String("dump-terms", "", "debug: pkg:recv:name - print the normalised term of every value of that function and exit")
 	flag.Parse()
+	if *dumpT != "" {
+		parts := strings.Split(*dumpT, ":")
+		P, err := Load(*repo, V0)
+		if err != nil {
+			fmt.Fprintln(os.Stderr, err)
+			os.Exit(2)
+		}
+		fn := P.Fn(parts[0], parts[1], parts[2])
+		fns := append([]*ssa.Function{fn}, fn.AnonFuncs...)
+		for _, f := range fns {
+			tb := newTB(f)
+			fmt.Println("==", fname(f))
+			for _, b := range f.Blocks {
+				fmt.Printf("block %d (%s) preds=%v succs=%v\n", b.Index, b.Comment, b.Preds, b.Succs)
+				for _, in := range b.Instrs {
+					if v, ok := in.(ssa.Value); ok {
+						fmt.Printf("  %-6s = %s\n", v.Name(), tb.T(v).String())
+					} else {
+						fmt.Printf("  %s\n", in.String())
+					}
+				}
+			}
+		}
+		return
+	}
 	if *dumpF {
 		fs, err := dumpFuncs(*repo)
 		if err != nil {
